@@ -96,11 +96,23 @@ def respell(draw, case):
         kinds.add('asc-keyword')
     recase = draw(st.booleans())
 
+    regap = draw(st.integers(0, 2)) == 1
+
     def K(kw):
+        words = kw.split(' ')
         if recase:
             kinds.add('keyword-case')
-            return ' '.join(mixed_case(draw, w) for w in kw.split(' '))
-        return kw
+            words = [mixed_case(draw, w) for w in words]
+        out = words[0]
+        for w in words[1:]:
+            gap = ' '
+            if regap:
+                # white space between the words of a multi-word keyword (ORDER  BY, LEFT OUTER<TAB>JOIN, DISTINCT   COUNT)
+                gap = draw(st.sampled_from([' ', '  ', '\t', ' \t ', '   ', '\n']))
+                if gap != ' ':
+                    kinds.add('keyword-inner-whitespace')
+            out += gap + w
+        return out
     head, clauses = qgen.render_clauses(q, 'py', K)
     # aN <-> a[N] outside literals
     if draw(st.booleans()):
